@@ -55,7 +55,10 @@ RULE_ADDED = (
               'envelope pages of 79 bytes. '
               ' '
               'Round 17: SGX attestations of a running (unlocked) device taken with -u, with or'
-              ' without a PIN in the options. ')
+              ' without a PIN in the options. '
+              ' '
+              'Round 18: the UI-exit exchange of the Ledger flow ends in a read error, a time-o'
+              'ut or a plain answer. ')
 RULE = RULE + " " + RULE_ADDED.strip()
 ASSUMPTIONS = [
     "the genuine-device models in pv/simdev/genuine.py (endorsement scheme two: signatures by "
@@ -219,6 +222,10 @@ def ledger_run(acc, cseed, alter, tmpdir):
     gd = GenuineLedger(rng, onboarded=False, mode=MODE_BOOTLOADER, pin=b"",
                        signer_framing=framing, alter=hooks)
     dev = gd.dev
+    # (leaving the UI makes the device re-enumerate: the exit command ends in a read error,
+    # in silence until the time-out, or - now and then - in a plain answer)
+    dev.cfg["exit_behaviour"] = random.Random(cseed ^ 0x0f0f).choice(
+        ["read_error", "read_error", "timeout", "timeout", "ok"])
     pin = "Abcd1234"
     via_cli = rng.random() < 0.5
     again = random.Random(cseed ^ 0x0b0a).random() < 0.5
